@@ -3,7 +3,7 @@
 use anyhow::{Context, Result};
 use clap::Subcommand;
 use std::fs::File;
-use std::io::{self, BufReader, BufWriter};
+use std::io::{self, BufReader, BufWriter, Write};
 use std::path::{Path, PathBuf};
 use std::time::Instant;
 use wow_cdbc::{
@@ -344,16 +344,20 @@ fn export_command(
         Some(path) => {
             let output_file = File::create(path)
                 .with_context(|| format!("Failed to create output file: {}", path.display()))?;
-            let writer = BufWriter::new(output_file);
+            let mut writer = BufWriter::new(output_file);
 
             match format {
                 ExportFormat::Json => {
-                    export_to_json(&record_set, writer).context("Failed to export to JSON")?;
+                    export_to_json(&record_set, &mut writer).context("Failed to export to JSON")?;
                 }
                 ExportFormat::Csv => {
-                    export_to_csv(&record_set, writer).context("Failed to export to CSV")?;
+                    export_to_csv(&record_set, &mut writer).context("Failed to export to CSV")?;
                 }
             }
+            // A BufWriter dropped unflushed discards the error of its last write
+            writer
+                .flush()
+                .with_context(|| format!("Failed to write output file: {}", path.display()))?;
 
             println!(
                 "Exported {} records to {}: {}",
